@@ -119,14 +119,14 @@ func ValidateTransaction(ctx sdk.Ctx, k Keeper, stdTx types.StdTx, params Params
 		}
 		// get the fees from the tx
 		expectedFee := sdk.NewCoins(sdk.NewCoin(sdk.DefaultStakeDenom, k.GetParams(ctx).FeeMultiplier.GetFee(stdTx.GetMsg())))
+		// validate the fees for every public key type
+		if !stdTx.GetFee().IsAllGTE(expectedFee) {
+			return nil, types.ErrInsufficientFee(ModuleName, expectedFee, stdTx.GetFee())
+		}
 		// test for public key type
 		p, ok := pk.(posCrypto.PublicKeyMultiSig)
 		// if standard public key
 		if !ok {
-			// validate the fees for a standard public key
-			if !stdTx.GetFee().IsAllGTE(expectedFee) {
-				return nil, types.ErrInsufficientFee(ModuleName, expectedFee, stdTx.GetFee())
-			}
 			// validate signature for regular public key
 			if !simulate && !pk.VerifyBytes(signBytes, stdTx.GetSignature().GetSignature()) {
 				continue
